@@ -110,6 +110,13 @@ CHECKS.update({
         note=L2_NOTE, technique="TLA+ model checking (TLC) + scenarios on real server processes + TLC trace validation of every node's membership view", ref="5/C20"),
 })
 
+CHECKS.update({
+    "C18": dict(
+        text="ControlPlane.tla models the zero group's apply goroutine against the allocator loop (locks, the capacity-10 notification channel, the unbuffered updates channel, the loop's blocking proposal) and TLC's deadlock check decides it per entry sequence and switch position: create-only, membership-only and not-under-replicated logs are deadlock-free, send-under-lock (as shipped) and an under-replicated partition deadlock. The real cluster.Conn + Allocator + DatasetManager run over a scripted zero group for every entry sequence up to length 3 (thorough: 4) over {join, leave, create R=1, create R=2, delete}, queued one by one or as a restart burst, plus TLC's deadlock trace; a watchdog decides whether the log drained and the node still applies a further entry, and a stall's signature is the blocked frames of the apply goroutine and the allocator loop. Real servers are killed and restarted with existing datasets, with and without a catalogue snapshot.",
+        note="The zero group is scripted (one apply goroutine, entries in order). A stall = log not drained 6 s after the last entry. Two open known findings (one wait-for cycle, both lock orders) are suppressed by their exact signature; any other stall is a violation.",
+        technique="TLA+ deadlock checking (TLC) + entry sequences on the real control plane under a watchdog + TLC trace validation", ref="5/C18"),
+})
+
 NOT_APPLICABLE = {
     "C15": "Numeric agreement and memory safety of hand-written AVX/SSE kernels: no state machine to specify, TLC has neither IEEE-754 floats nor a memory model; a differential/sanitizer technique would be needed (DESIGN.md section 6).",
 }
